@@ -282,6 +282,12 @@ func (c *Conn) readCommand(dec *imapwire.Decoder) error {
 
 	dec.DiscardLine()
 
+	// If the command announced a non-synchronizing literal that we haven't
+	// read (because it was refused or because the command is invalid), the
+	// client has already sent its payload. Never interpret that payload as
+	// commands: reply, then drop the connection (RFC 7888 section 4).
+	unreadLiteral := dec.UnreadNonSyncLiteral()
+
 	var (
 		resp    *imap.StatusResponse
 		imapErr *imap.Error
@@ -310,7 +316,13 @@ func (c *Conn) readCommand(dec *imapwire.Decoder) error {
 			Text: fmt.Sprintf("%v completed", name),
 		}
 	}
-	return c.writeStatusResp(tag, resp)
+	if err := c.writeStatusResp(tag, resp); err != nil {
+		return err
+	}
+	if unreadLiteral {
+		return fmt.Errorf("non-synchronizing literal left unread in %v command", name)
+	}
+	return nil
 }
 
 func (c *Conn) handleNoop(dec *imapwire.Decoder) error {
